@@ -1242,6 +1242,38 @@ def _import(payload: bytes, transport: str):
     raise ValueError(transport)
 
 
+def _cirq_local_function_in(v, depth=0, seen=None):
+    """Qualified name of a function defined inside a Cirq function/method (`X.__init__.<locals>.<lambda>`) that is
+    stored on the value or on something it holds; None if there is none."""
+    import types
+    if seen is None:
+        seen = set()
+    if id(v) in seen or depth > 6:
+        return None
+    seen.add(id(v))
+    if isinstance(v, types.FunctionType):
+        if "<locals>" in v.__qualname__ and str(v.__module__).split(".")[0] in (
+                "cirq", "cirq_google", "cirq_ionq", "cirq_aqt", "cirq_pasqal"):
+            return v.__qualname__
+        return None
+    if isinstance(v, (list, tuple, set, frozenset)):
+        items = list(v)
+    elif isinstance(v, dict):
+        items = list(v.values())
+    elif _is_cirq_obj(v):
+        try:
+            items = list(vars(v).values())
+        except TypeError:
+            items = []
+    else:
+        return None
+    for x in items:
+        r = _cirq_local_function_in(x, depth + 1, seen)
+        if r is not None:
+            return r
+    return None
+
+
 def _unsupported_or_failure(op: str, e: Exception, recipe, redo):
     """Pickling and copying are promised to give *equal* values, not promised to exist for every class
     (some hold lambdas).  An exception is a finding when it is raised by Cirq's own hooks (innermost frame
@@ -1251,8 +1283,15 @@ def _unsupported_or_failure(op: str, e: Exception, recipe, redo):
     if rec["innermost_in_repo"]:
         raise SutFailure(rec)
     try:
-        redo(build_value(recipe))
+        fresh = build_value(recipe)
+        redo(fresh)
     except Exception:  # noqa: BLE001
+        culprit = _cirq_local_function_in(fresh)
+        if culprit is not None:
+            # not a user's lambda: the class itself stores a function it defined locally on every instance
+            rec["exc_msg"] = f"instance holds the local function {culprit} defined by Cirq: " + rec["exc_msg"]
+            rec["site"] = "local-function:" + culprit
+            raise SutFailure(rec) from None
         return {"unsupported": True, "exc_type": rec["exc_type"]}
     rec["history_dependent"] = True
     raise SutFailure(rec)
@@ -1306,6 +1345,11 @@ def op_twin(req):
     try:
         eq = _eq(a, b) and _eq(b, a)
     except Exception as e:  # noqa: BLE001
+        if type(a) is type(b) and _is_cirq_obj(a):
+            # == between two values of one class must answer, whatever their sizes
+            rec = _failure_record("twin:eq", e)
+            rec["subject"] = _tname(a)
+            raise SutFailure(rec) from None
         return {"rejected": True, "why": "eq-raises:" + type(e).__name__}
     out = {"rejected": False, "eq": bool(eq), "hash_eq": True, "lookup": True, "where": None, "hashable": False}
     if not eq:
@@ -1344,6 +1388,22 @@ def op_derive(req):
     and be found by -- the same derivation of a freshly built, untouched equal value."""
     v = HELD[req["slot"]]
     method, args = req["method"], req["args"]
+    if req.get("in_place"):
+        # An in-place update also changes every other held value that shares the object -- a shallow copy of
+        # a list holds the very same tableaux -- and those would silently stop being what their recipes say.
+        # Such a derivation is only done on a value nothing else held refers to.
+        def parts(x):
+            ids = {id(x)}
+            if isinstance(x, (list, tuple)):
+                ids.update(id(e) for e in x)
+            elif isinstance(x, dict):
+                ids.update(id(e) for e in x.values())
+            return ids
+        mine = parts(v)
+        mutable = {i for i in mine if i != id(v) or not isinstance(v, (list, tuple, dict))}
+        for s_, other in HELD.items():
+            if s_ != req["slot"] and (parts(other) & mutable):
+                return {"na": True, "why": "aliased"}
     fresh = build_value(req["recipe"])
     try:
         ref = derive(fresh, method, args)
